@@ -120,7 +120,7 @@ def fits_of(pm: PM, is_curve):
         return None
     objs = []
     for c in pm.out.calls:
-        if isinstance(c.callee, FuncInfo) and c.callee.qualname == "PervaporationFunction.__call__" and c.caller.func is pm.func and c.in_loop:
+        if isinstance(c.callee, FuncInfo) and c.callee.qualname == "PervaporationFunction.__call__" and c.in_loop:
             s = c.bound.get("self")
             if not any(s is x for x in objs):
                 objs.append(s)
@@ -239,11 +239,13 @@ def check_provenance(ck, repo, cfg, pm: PM, fits, is_curve):
     f = pm.func
     fq = f.qualname
     cs = param_of_type(repo, f, "DiffusionCurveSet")
-    recs = [c for c in pm.out.calls if isinstance(c.callee, FuncInfo) and c.callee.qualname == FIT and c.caller.func is f]
+    recs = [c for c in pm.out.calls if isinstance(c.callee, FuncInfo) and c.callee.qualname == FIT]
     ck.ob("N1", fq, "exactly one best-fit search per component", f.loc(), len(recs) == 2, "found %d calls of find_best_fit" % len(recs))
     if len(recs) != 2:
         return
-    single = any(("len(" in key_str(c) and d) for c, d in pm.out.trace if isinstance(c, tuple) and c[0] == "eq")
+    from ..symeval import signs_on_path
+    ncurves = Rat.sym("len(%s.diffusion_curves)" % cs, ("nonneg", "int"))
+    single = signs_on_path(pm.out.trace, ncurves - 1) == {0}
     for i, c in enumerate(recs):
         comp = "first" if i == 0 else "second"
         data = c.bound.get("data")
@@ -295,10 +297,9 @@ def check_arrhenius(ck, repo, cfg, pm, i, raw, used, rec, is_curve=False):
             return
         T = T0
         # on the path where the curve temperature was found equal to the modelling temperature the two are one atom
-        for c, d in pm.out.trace:
-            if isinstance(c, tuple) and len(c) == 3 and c[0] == "eq" and isinstance(c[1], Rat) and d and \
-                    ((c[1] == Tc and c[2] == T0) or (c[2] == Tc and c[1] == T0)):
-                Tc = T0
+        from ..symeval import signs_on_path
+        if signs_on_path(pm.out.trace, Tc - T0) == {0}:
+            Tc = T0
     from ..procmodel import oracle
     Ea = oracle(pm, "self.membrane.calculate_activation_energy(self.mixture.%s_component)" % comp).r
     R = oracle(pm, "R").r
@@ -337,7 +338,7 @@ def check_measurements(ck, repo):
         for o in outs:
             oko = False
             if o.kind == "return" and isinstance(o.value, ObjV):
-                d = o.value.fields.get("data")
+                d = famify(o.value.fields.get("data"))
                 if isinstance(d, ListV) and d.kind == "fam" and isinstance(d.elem, ObjV):
                     p = d.elem.fields.get("p")
                     t = d.elem.fields.get("t")
@@ -350,8 +351,9 @@ def check_measurements(ck, repo):
               found=found[:300])
         g = repo.find_function("Measurements.from_diffusion_curves_%s" % comp)
         ck.analysed_function(g)
-        calls = [ast.unparse(n.func) for n in ast.walk(g.node) if isinstance(n, ast.Call)]
+        # every reference (call or function value handed to a helper) to a per-curve extractor inside the set-level constructor
+        refs = sorted({n.attr for n in ast.walk(g.node) if isinstance(n, ast.Attribute) and n.attr.startswith("from_diffusion_curve_")} |
+                      {n.id for n in ast.walk(g.node) if isinstance(n, ast.Name) and n.id.startswith("from_diffusion_curve_")})
+        other = "second" if comp == "first" else "first"
         ck.ob("N1", g.qualname, "set-level measurements of component %d are built from from_diffusion_curve_%s" % (i + 1, comp), g.loc(),
-              any(c.endswith("from_diffusion_curve_%s" % comp) for c in calls) and
-              not any(c.endswith("from_diffusion_curve_%s" % ("second" if comp == "first" else "first")) for c in calls),
-              found=", ".join(calls))
+              ("from_diffusion_curve_%s" % comp) in refs and ("from_diffusion_curve_%s" % other) not in refs, found=", ".join(refs))
